@@ -98,16 +98,20 @@ def AddrIs (x : Ext) (boiler : List String) (addr : Str) : AddrVerdict → Prop
 /-- a conflict marker line `#-#-#-#-#  …  #-#-#-#-#` with something between the double blanks -/
 def ConflictMarker (l : Str) : Prop := ∃ mid, mid ≠ [] ∧ l = "#-#-#-#-#  ".toList ++ mid ++ "  #-#-#-#-#".toList
 
-/-- `\b`: exactly one of the neighbours is a word character -/
-def Boundary (db : UDB) (prev next : Option Char) : Prop :=
-  (∃ c, prev = some c ∧ db.isWord c = true) ≠ (∃ c, next = some c ∧ db.isWord c = true)
+/-- an encoding name as the Content-Type form admits it: non-empty, without white space and `;` -/
+def ValidEnc (db : UDB) (enc : Str) : Prop := enc ≠ [] ∧ ∀ c ∈ enc, db.isSpace c = false ∧ c ≠ ';'
 
-/-- the Content-Type value has a `charset=<enc>` parameter at its end (`enc` without white space and `;`), preceded by a
-    word boundary; `full` says whether the value is exactly `text/plain; charset=<enc>` -/
+/-- the Content-Type value ends in a `charset=<enc>` parameter that starts at a word boundary (`boundary`: exactly one
+    neighbour is a word character); `full` says whether the value is exactly `text/plain; charset=<enc>` -/
 def CharsetParam (db : UDB) (ct : Str) (full : Bool) (enc : Str) : Prop :=
-  enc ≠ [] ∧ (∀ c ∈ enc, db.isSpace c = false ∧ c ≠ ';') ∧
-  ((full = true ∧ ct = "text/plain; charset=".toList ++ enc ∧ Boundary db (some ' ') (some 'c'))
-   ∨ (full = false ∧ ∃ pre, ct = pre ++ "charset=".toList ++ enc ∧ Boundary db pre.getLast? (some 'c')))
+  ValidEnc db enc ∧
+  ((full = true ∧ ct = "text/plain; charset=".toList ++ enc ∧ boundary db (some ' ') (some 'c') = true)
+   ∨ (full = false ∧ ∃ pre, ct = pre ++ "charset=".toList ++ enc ∧ boundary db pre.getLast? (some 'c') = true))
+
+/-- the charset the value declares: the full form if it has it, else the longest `charset=` parameter at its end -/
+def CharsetOf (db : UDB) (ct : Str) (full : Bool) (enc : Str) : Prop :=
+  CharsetParam db ct full enc ∧
+  (full = false → (∀ e, ¬ CharsetParam db ct true e) ∧ ∀ e', CharsetParam db ct false e' → e'.length ≤ enc.length)
 
 /-! ## the rules -/
 
@@ -184,7 +188,7 @@ def ContentTypeRule (fs : List (Str × Str)) (t : TagCall) : Prop :=
   ∨ ∃ ct ∈ vals fs "Content-Type",
       ((¬ ∃ full enc, CharsetParam x.db ct full enc) ∧
         t = ⟨"invalid-content-type", [.str ct, .str "=>".toList, .str "text/plain; charset=<encoding>".toList]⟩)
-      ∨ ∃ full enc ctags kept, matchContentType x.db ct = some (full, enc) ∧ cs (toName enc) = .ok (ctags, kept) ∧
+      ∨ ∃ full enc ctags kept, CharsetOf x.db ct full enc ∧ cs (toName enc) = .ok (ctags, kept) ∧
           ((∃ c ∈ ctags, t = ofCharsetTag ct c)
            ∨ (full = false ∧ t = ⟨"invalid-content-type", [.str ct, .str "=>".toList,
                 .str (match kept with | some e => "text/plain; charset=".toList ++ ofName e
